@@ -20,7 +20,7 @@ PENDING = {
 CLAIMED = {
  "C08": dict(cat="exploration", sec="5.1", engine="lane-N",
    technique="seeded operation-history simulation against a reference model (deterministic simulation, history search)",
-   text="Seeded search over histories of API operations (packet shape x compression layout x OPT placement x operation sequence) on the real library; after every successful step the object's full observable view is compared with a fresh parse of its own bytes (or, in states the parser refuses for policy-only reasons, with the independent recogniser's layout), plus cursor coherence after set_raw_name/uncompress. Exploration is the right level: the property quantifies over unbounded histories and the failures live in which operation follows which on which packet shape.",
+   text="Seeded search over histories of API operations (packet shape x compression layout x OPT placement x operation sequence) on the real library; after every successful step the object's full observable view is compared with a fresh parse of its own bytes (or, in states the parser refuses for policy-only reasons, with the independent recogniser's layout), plus cursor coherence after set_raw_name/uncompress. Four fifths of the runs use a build with checked arithmetic and debug assertions, one fifth the release arithmetic that ships; a worker that stops making progress is killed and reported. Exploration is the right level: the property quantifies over unbounded histories and the failures live in which operation follows which on which packet shape.",
    note="Trusts the harness's reference codec/recogniser (cross-checked against the parser on every generated packet) and the fixed observer battery; max_payload and 'maybe_compressed == true on pointer-free bytes' are deliberately not compared; sampling, not proof."),
  "C09": dict(cat="exploration", sec="5.2", engine="lane-N",
    technique="seeded operation-history simulation against a reference model (deterministic simulation, refinement check per step)",
@@ -36,15 +36,15 @@ CLAIMED = {
    note="The cursor is identified with a record through its public offset(), so no particular restart protocol is assumed; OPT is required to be yielded only by walks that use next_including_opt throughout."),
  "C15": dict(cat="exploration", sec="5.5", engine="lane-C",
    technique="deterministic simulation of hook scripts: C driver compiled against the shipped header vs native API twin (differential), canaries, crash attribution",
-   text="Seeded hook scripts (top-level table calls and per-record callback programs, with injected failing calls) are executed by a C interpreter compiled by the system compiler against /repo/src/bin/c_hook/c_hook.h through `const FnTable *`, and in lockstep through the native Rust API on a twin packet; per step the return values, out-parameters, NUL-terminated names, error descriptions, packet bytes and object state must be equal. Caller buffers are exact-size and fenced by canaries; a worker process that dies inside a table call on a precondition-respecting script is a violation attributed to the run and call in flight; one signature probe per table entry is compiled against the header at build time.",
+   text="Seeded hook scripts (top-level table calls and per-record callback programs, with injected failing calls) are executed by a C interpreter compiled by the system compiler against /repo/src/bin/c_hook/c_hook.h through `const FnTable *`, and in lockstep through the native Rust API on a twin packet; per step the return values, out-parameters, NUL-terminated names, error descriptions, packet bytes and object state must be equal. Caller buffers are exact-size and fenced by canaries; a worker process that dies inside a table call on a precondition-respecting script - or a native call that panics, which through an extern C entry is an abort - is a violation attributed to the run and call in flight; one signature probe per table entry is compiled against the header at build time; a Miri slice runs table scripts through the function pointers with exact-size buffers.",
    note="The native API is the reference, so defects shared by both sides are invisible here (C08-C11 cover them); the native call runs first and a native panic ends the script without involving the table. Canaries catch contiguous overruns only. Probe argument types were derived from src/c_abi.rs at the pinned commit."),
  "C16": dict(cat="exploration", sec="5.6", engine="lane-T",
    technique="deterministic step scheduler over real parked OS threads (seeded uniform and PCT schedules)",
-   text="2-4 real OS threads (real thread_local! storage) each run a seeded script of failing table calls (12 kinds), description reads and succeeding calls; a simulator thread alone chooses, from the seed, which thread performs its next call, so every interleaving is exactly repeatable. At every read the string must equal the text of that thread's most recent failure, the expected text being taken from the native error of the same call.",
+   text="2-4 real OS threads (real thread_local! storage) each run a seeded script of failing table calls (12 kinds), description reads and succeeding calls; a simulator thread alone chooses, from the seed, which thread performs its next call, so every interleaving is exactly repeatable. At every read the string must equal the text of that thread's most recent failure, the expected text being taken from the native error of the same call. Swarm per run: a palette of 2-22 failure kinds (17 distinct texts), optional bursts of 30-320 short-lived failing threads (thread churn). A dependence on failures of threads of earlier runs of the same process is reported as a replayable run sequence. A Miri slice (seeded preemptive scheduler, data-race detection) runs the same kind of workload with preemption inside calls.",
    note="Interleaving is at call granularity; preemption inside a call and data races are the Miri lane's business (see DESIGN.md 5.6). shuttle/loom are unusable here because they multiplex threads on one OS thread and would share std::thread_local!."),
  "C17": dict(cat="exploration", sec="5.7", engine="lane-T",
    technique="deterministic simulation of call histories and cross-thread schedules against isolated baselines",
-   text="A pool of seeded inputs sharing a small label alphabet (so suffixes overlap, including >32-suffix packets) is evaluated call by call in fresh threads (baseline), then in seeded orders with repeats on one long-lived thread and interleaved over 2-4 parked threads under a seeded schedule; every outcome (Ok bytes | Err text | panic text) must equal its baseline; gen::query results may differ only in bytes 0-1.",
+   text="A pool of seeded inputs sharing a small label alphabet (so suffixes overlap, including >32-suffix packets) is evaluated call by call in fresh threads (baseline), then in seeded orders with repeats on one long-lived thread and interleaved over 2-4 parked threads under a seeded schedule; every outcome (Ok bytes | Err text | panic text) must equal its baseline; gen::query / empty-packet results may differ only in bytes 0-1. Pools include renames that fail part-way, twin renames (same names, other matching mode) scheduled back to back, case-variant record texts and name conversion through the C table. A dependence on earlier runs of the same process is reported as a replayable run sequence; a Miri slice adds preemption inside calls and data-race detection.",
    note="Purity means equal outcomes, so deterministic wrong answers or deterministic panics of the transformations (C05-C07, C13: unclaimed) never raise an alarm here."),
 }
 def check(pid, c):
@@ -69,7 +69,8 @@ m = {
  "engines": [
    {"name": "lane-N", "path": "sim/src/exec.rs", "serves_properties": ["C08","C09","C10","C11"], "kind_free_text": "seeded operation-history simulator: real library vs reference model, oracles after every step, injected failing operations, minimiser, replay"},
    {"name": "lane-C", "path": "sim/src/lane_c.rs, sim/cdriver/driver.c, sim/build.rs", "serves_properties": ["C15"], "kind_free_text": "byte-coded hook scripts interpreted by a C driver compiled against c_hook.h and by a native twin; differential oracle, canaries, child-process crash attribution, per-entry signature probes"},
-   {"name": "lane-T", "path": "sim/src/lane_t.rs", "serves_properties": ["C16","C17"], "kind_free_text": "deterministic step scheduler over real parked OS threads (one runnable thread at a time; seeded uniform/PCT schedules)"},
+   {"name": "lane-T", "path": "sim/src/lane_t.rs", "serves_properties": ["C16","C17"], "kind_free_text": "deterministic step scheduler over real parked OS threads (one runnable thread at a time; seeded uniform/PCT schedules), thread churn, run-sequence (process history) replay"},
+   {"name": "lane-M", "path": "miri/src/main.rs, sim/src/miri.rs", "serves_properties": ["C15","C16","C17"], "kind_free_text": "small thread/table workloads interpreted by Miri with -Zmiri-many-seeds (seeded preemptive scheduler, data-race / out-of-bounds detection); replay = same Miri seed and workload seed"},
  ],
  "checks": [check(p, c) for p, c in sorted(CLAIMED.items())],
  "not_applicable": [{"property_id": k, "reason": v} for k, v in sorted(NA.items())] +
